@@ -120,3 +120,34 @@ Print Assumptions C18_tx_bytes.
 Print Assumptions C18_tx_panics_on_non_request_stream.
 Print Assumptions C18_rx_is_rfc.
 Print Assumptions C18_tx_rx_roundtrip.
+
+(* ---------------- decoding from a NON-CONTIGUOUS `Buf` (round 3) ----------------
+   Model/ChunkedBuf.v: a queue of non-empty chunks with the three required Buf methods; Model/ChunkedDatagram.v:
+   Datagram::decode on it (VarInt::decode through the bytes-crate provided methods, then `payload = buf`). *)
+From H3V Require Import Model.ChunkedBuf Model.ChunkedVarint Model.ChunkedDatagram Proofs.ChunkedDatagramProofs.
+
+(* for EVERY chunking of the arriving bytes: the same stream id, a payload buffer whose bytes are exactly the flat
+   decoder's payload (and which still has no empty chunk), or the same error code *)
+Theorem C18_decode_any_chunking :
+  forall cs, nonempty_chunks cs ->
+    res_flat (dg_decode_buf cs) = dg_decode (concat cs) /\
+    (forall s p, dg_decode_buf cs = Ok (s, p) -> nonempty_chunks p).
+Proof. exact dg_decode_buf_flat. Qed.
+
+(* hence the RFC 9297 reference decoder on the concatenation, wherever the chunk boundaries fall (inside the quarter
+   stream id, between it and the payload, inside the payload) *)
+Theorem C18_decode_any_chunking_is_rfc :
+  forall cs, nonempty_chunks cs -> wf_bytes (concat cs) ->
+    res_flat (dg_decode_buf cs) = match rfc_dg_decode (concat cs) with
+                                  | Some (s, p) => Ok (s, p)
+                                  | None => Err H3_DATAGRAM_ERROR_rfc
+                                  end.
+Proof. exact dg_decode_buf_spec. Qed.
+
+Example C18_decode_any_chunking_inhabited :
+  dg_decode_buf [[64]; [2; 120]; [121]] = Ok (8, [[120]; [121]]) /\ dg_decode_buf [[128; 0]; [0]] = Err 51 /\
+  dg_decode_buf [[255]; [255; 255; 255]; [255; 255; 255; 255; 1]] = Err 51.
+Proof. vm_compute. repeat split; reflexivity. Qed.
+
+Print Assumptions C18_decode_any_chunking.
+Print Assumptions C18_decode_any_chunking_is_rfc.
